@@ -133,7 +133,7 @@ Definition totals_in_range (p : pool) : Prop :=
 
 Theorem inv_dump_passes st : Inv U st -> totals_in_range (s_pool st) -> check_dump (dump_of st) = None.
 Proof.
-  intros [Hj [Hf Hm]] [Rs Rf]. pose proof (j_pool _ _ _ _ Hj) as K. set (p := s_pool st) in *. set (c := s_chain st) in *.
+  intros [Hj [Hf [Hm _]]] [Rs Rf]. pose proof (j_pool _ _ _ _ Hj) as K. set (p := s_pool st) in *. set (c := s_chain st) in *.
   assert (forall e o, In e (p_entries p) -> In o (t_ins (e_tx e)) ->
           status_of p c o = In_mempool \/ exists h cb, status_of p c o = In_utxo h cb /\ utxo c o = Some (h, cb)) as Hstat.
   { intros e o He Ho. unfold status_of. destruct (find_entry p (fst o)) as [e1|] eqn:F.
